@@ -1612,6 +1612,12 @@ def _scaleParamsInBlock(b, bSymmetric, completeListOfParamsToScale):
         )
         if paramName in fluxParamsToScale:
             _scaleFluxValues(b, bSymmetric, paramName)  # updated volume weighted fluxes
+        elif type(b.p[paramName]) is list:
+            # some params are lists (one value per group): add the two halves element by element
+            b.p[paramName] = [
+                val + valSymmetric
+                for val, valSymmetric in zip(b.p[paramName], bSymmetric.p[paramName])
+            ]
         else:
             b.p[paramName] = b.p[paramName] + bSymmetric.p[paramName]
 
